@@ -289,6 +289,19 @@ func (c *Ctx) BuildCensus(keep func(string) bool) *Census {
 						record(s.Value, nil, s, "")
 					}
 				}
+			case *ast.CallExpr:
+				// delete(x.f, k) / clear(x.f) write the storage of field f
+				if id, ok := ast.Unparen(s.Fun).(*ast.Ident); ok && (id.Name == "delete" || id.Name == "clear") && len(s.Args) >= 1 {
+					if _, isB := info.Uses[id].(*types.Builtin); isB {
+						if f := FieldOfSelector(info, s.Args[0]); f != nil {
+							var lit *ast.FuncLit
+							if len(litStack) > 0 {
+								lit = litStack[len(litStack)-1]
+							}
+							cs.Writes = append(cs.Writes, FieldWrite{Field: f, Kind: "elem", Node: s, LHS: s.Args[0], Unit: u, Lit: lit})
+						}
+					}
+				}
 			case *ast.UnaryExpr:
 				if s.Op == token.AND {
 					if f := FieldOfSelector(info, s.X); f != nil {
